@@ -487,6 +487,8 @@ def front_cost(p):
     left to the fixed witnesses (the model has no allocation failure, the harness would need gigabytes)"""
     cost = len(p) * 2 + 8
     for m in re.finditer(rb"\d+", p):
+        if len(m.group()) >= 10:          # may leave `int` in parse_interval: open finding C17-RE-COUNT-PARSE, fixed witness only
+            return 10 ** 13
         cost *= min(int(m.group()), 10 ** 9) + 2
         if cost > 10 ** 12:
             break
